@@ -156,6 +156,7 @@ func rulesC08(w *World, r *Report) {
 	cp := need(w, r, "C08.R2", w.Cmd, "CopyCommand.copyOneFile")
 	if cp != nil {
 		copySkeletonRules(w, r, a, cp, a.readWhisperFile, "C08.R3", "C08.R2", "C08.R4", "C08.R5", true)
+		ruleClockUnmodified(w, r, "C08.R3", regexp.MustCompile(`^cmd\.CopyCommand\.`))
 	}
 	ruleDiffPredicates(w, r, "C08.R6")
 	// R7 glob mode
@@ -268,6 +269,7 @@ func rulesC09(w *World, r *Report) {
 			ruleOneClock(w, r, "C08.R3", a, sk)
 			ruleUntilDefault(w, r, "C08.R3", f, []*ssa.Function{a.readWhisperFile, a.sumWhisperFile})
 			ruleParseWindowCheck(w, r, "C08.R3", "DiffCommand")
+			ruleClockUnmodified(w, r, "C08.R3", regexp.MustCompile(`^cmd\.DiffCommand\.`))
 			ruleWrapSides(w, r, "C09.R4", a, sk)
 		}
 	}
@@ -307,6 +309,7 @@ func rulesC11(w *World, r *Report) {
 	r.Rule("C11.R3", "return classification: sumDiffItem has diff's verdict structure and execute latches the verdict", 8)
 	if sc := need(w, r, "C11.R1", w.Cmd, "SumCopyCommand.sumCopyItem"); sc != nil {
 		copySkeletonRules(w, r, a, sc, a.sumWhisperFile, "C11.R1", "C11.R1", "C11.R1", "C11.R1", false)
+		ruleClockUnmodified(w, r, "C11.R1", regexp.MustCompile(`^cmd\.Sum(Copy|Diff)Command\.`))
 		ruleSumArgs(w, r, "C11.R2", a, sc)
 	}
 	if sd := need(w, r, "C11.R3", w.Cmd, "SumDiffCommand.sumDiffItem"); sd != nil {
@@ -1316,6 +1319,7 @@ func rulesC10(w *World, r *Report) {
 		ruleLoopGoesOn(w, r, "C10.R6", "SumCommand.execute:every-item", firstLoopCall(se, a.sumWhisperFile), "every matched item is summed and printed")
 		if okS {
 			ruleUntilDefault(w, r, "C10.R6", se, []*ssa.Function{a.sumWhisperFile})
+			ruleClockUnmodified(w, r, "C10.R6", regexp.MustCompile(`^cmd\.SumCommand\.`))
 			ruleParseWindowCheck(w, r, "C10.R6", "SumCommand")
 			pf := callsTo(se, fn(w.Cmd, "printFileData"))
 			okP := len(pf) == 1
